@@ -278,3 +278,224 @@ Proof.
       apply Hsym; auto. left. reflexivity.
     + intros H x Hx. apply H; [left; reflexivity|right; exact Hx].
 Qed.
+
+(* ---------- group_by_common_parents ---------- *)
+Fixpoint grp_lookup (k : str) (g : list (str * list mx_fs)) : list mx_fs :=
+  match g with
+  | [] => []
+  | (k', l) :: r => if streq k k' then l else grp_lookup k r
+  end.
+
+Lemma grp_insert_keys k f g :
+  map fst (mx_group_insert k f g) = if xv_mem k (map fst g) then map fst g else map fst g ++ [k].
+Proof.
+  induction g as [|[k' l] g IH]; cbn [mx_group_insert map fst xv_mem existsb app]; [reflexivity|].
+  destruct (streq k k') eqn:E; cbn [map fst orb]; [reflexivity|].
+  rewrite IH. unfold xv_mem. destruct (existsb (streq k) (map fst g)); reflexivity.
+Qed.
+
+Lemma nodup_snoc (l : list str) k : NoDup l -> ~ In k l -> NoDup (l ++ [k]).
+Proof.
+  induction l as [|x l IH]; intros H E; cbn [app].
+  - constructor; [intros []|constructor].
+  - inversion H; subst. constructor.
+    + intros Hin. apply in_app_or in Hin. destruct Hin as [Hin|[->|[]]]; [contradiction|]. apply E. left. reflexivity.
+    + apply IH; [assumption|]. intros Hin. apply E. right. exact Hin.
+Qed.
+
+Lemma grp_insert_nodup k f g : NoDup (map fst g) -> NoDup (map fst (mx_group_insert k f g)).
+Proof.
+  intros H. rewrite grp_insert_keys. destruct (xv_mem k (map fst g)) eqn:E; [exact H|].
+  apply xv_mem_false in E. apply nodup_snoc; assumption.
+Qed.
+
+Lemma grp_insert_lookup k f g k' :
+  grp_lookup k' (mx_group_insert k f g) = if streq k' k then grp_lookup k g ++ [f] else grp_lookup k' g.
+Proof.
+  induction g as [|[k0 l] g IH]; cbn [mx_group_insert grp_lookup].
+  - destruct (streq k' k); reflexivity.
+  - destruct (streq k k0) eqn:E; cbn [grp_lookup].
+    + apply streq_eq in E. subst k0. destruct (streq k' k); reflexivity.
+    + destruct (streq k' k0) eqn:E'.
+      * destruct (streq k' k) eqn:E''; [|reflexivity].
+        apply streq_eq in E'. apply streq_eq in E''. subst. rewrite streq_refl in E. discriminate.
+      * exact IH.
+Qed.
+
+Section GroupFold.
+  Variable key : mx_fs -> option str.
+  Definition grp_step (g : list (str * list mx_fs)) (f : mx_fs) : list (str * list mx_fs) :=
+    match key f with Some k => mx_group_insert k f g | None => g end.
+  Definition key_is (k : str) (f : mx_fs) : bool :=
+    match key f with Some k' => streq k k' | None => false end.
+
+  Lemma grp_fold_nodup fields : forall g, NoDup (map fst g) -> NoDup (map fst (fold_left grp_step fields g)).
+  Proof.
+    induction fields as [|f fields IH]; intros g H; cbn [fold_left]; [exact H|].
+    apply IH. unfold grp_step. destruct (key f); [apply grp_insert_nodup; exact H|exact H].
+  Qed.
+
+  Lemma grp_fold_lookup fields k : forall g,
+    grp_lookup k (fold_left grp_step fields g) = grp_lookup k g ++ filter (key_is k) fields.
+  Proof.
+    induction fields as [|f fields IH]; intros g; cbn [fold_left filter]; [rewrite app_nil_r; reflexivity|].
+    rewrite IH. unfold grp_step, key_is at 2. destruct (key f) as [k'|]; [|reflexivity].
+    rewrite grp_insert_lookup. destruct (streq k k') eqn:E; [|reflexivity].
+    apply streq_eq in E. subst k'. rewrite <- app_assoc. reflexivity.
+  Qed.
+
+  Lemma grp_fold_keys fields : forall g k,
+    In k (map fst (fold_left grp_step fields g)) <-> In k (map fst g) \/ exists f, In f fields /\ key f = Some k.
+  Proof.
+    induction fields as [|f fields IH]; intros g k; cbn [fold_left].
+    - split; [auto|intros [H|[f [[] _]]]; exact H].
+    - rewrite IH. unfold grp_step at 1. destruct (key f) as [k'|] eqn:E.
+      + rewrite grp_insert_keys. destruct (xv_mem k' (map fst g)) eqn:M.
+        * apply xv_mem_In in M. split.
+          -- intros [H|[x [Hx Hk]]]; [left; exact H|right; exists x; split; [right; exact Hx|exact Hk]].
+          -- intros [H|[x [[<-|Hx] Hk]]]; [left; exact H| |right; exists x; auto].
+             rewrite E in Hk. injection Hk as <-. left. exact M.
+        * split.
+          -- intros [H|[x [Hx Hk]]].
+             ++ apply in_app_or in H. destruct H as [H|[<-|[]]]; [left; exact H|].
+                right. exists f. split; [left; reflexivity|exact E].
+             ++ right. exists x. split; [right; exact Hx|exact Hk].
+          -- intros [H|[x [[<-|Hx] Hk]]].
+             ++ left. apply in_or_app. left. exact H.
+             ++ rewrite E in Hk. injection Hk as <-. left. apply in_or_app. right. left. reflexivity.
+             ++ right. exists x. auto.
+      + split.
+        * intros [H|[x [Hx Hk]]]; [left; exact H|right; exists x; split; [right; exact Hx|exact Hk]].
+        * intros [H|[x [[<-|Hx] Hk]]]; [left; exact H|congruence|right; exists x; auto].
+  Qed.
+End GroupFold.
+
+Lemma grp_in_lookup g k l : NoDup (map fst g) -> In (k, l) g -> grp_lookup k g = l.
+Proof.
+  induction g as [|[k' l'] g IH]; intros Hnd Hin; [destruct Hin|]. cbn [grp_lookup].
+  cbn [map fst] in Hnd. inversion Hnd as [|? ? Hnot Hnd']; subst.
+  destruct Hin as [Heq|Hin].
+  - injection Heq as -> ->. rewrite streq_refl. reflexivity.
+  - destruct (streq k k') eqn:E.
+    + apply streq_eq in E. subst. exfalso. apply Hnot. apply in_map_iff. exists (k', l). auto.
+    + apply IH; assumption.
+Qed.
+
+Lemma sch_get_type_name s n t : sch_get_type s n = Some t -> et_name t = n.
+Proof.
+  unfold sch_get_type. induction (sch_types s) as [|t' r IH]; cbn [sch_find_type]; [discriminate|].
+  destruct (streq n (et_name t')) eqn:E.
+  - intros [= <-]. apply streq_eq in E. congruence.
+  - exact IH.
+Qed.
+
+(* the key under which group_by_common_parents files a field: the name of its parent if that is an object type *)
+Definition obj_key (s : schema) (f : mx_fs) : option str :=
+  match sch_get_type s (mf_parent f) with
+  | Some (EObject _ name _ _ _ _) => Some name
+  | _ => None
+  end.
+Definition is_abstract (s : schema) (f : mx_fs) : bool :=
+  match sch_get_type s (mf_parent f) with
+  | Some (EInterface _ _ _ _ _ _) | Some (EUnion _ _ _ _ _) => true
+  | _ => false
+  end.
+
+Lemma group_by_common_parents_eq s fields :
+  mx_group_by_common_parents s fields =
+  match fold_left (grp_step (obj_key s)) fields [] with
+  | [] => [filter (is_abstract s) fields]
+  | conc => map (fun g => snd g ++ filter (is_abstract s) fields) conc
+  end.
+Proof.
+  unfold mx_group_by_common_parents.
+  assert (E : forall g0, fold_left (fun g f => match sch_get_type s (mf_parent f) with
+                                               | Some (EObject _ name _ _ _ _) => mx_group_insert name f g
+                                               | _ => g
+                                               end) fields g0
+                         = fold_left (grp_step (obj_key s)) fields g0).
+  { induction fields as [|f fields IH]; intros g0; cbn [fold_left]; [reflexivity|]. rewrite IH. f_equal.
+    unfold grp_step, obj_key. destruct (sch_get_type s (mf_parent f)) as [[]|]; reflexivity. }
+  rewrite E. destruct (fold_left (grp_step (obj_key s)) fields []); reflexivity.
+Qed.
+
+Lemma obj_key_parent s f k : obj_key s f = Some k -> k = mf_parent f /\ xv_object_name s (mf_parent f) = true.
+Proof.
+  unfold obj_key, xv_object_name. destruct (sch_get_type s (mf_parent f)) as [t|] eqn:E; [|discriminate].
+  destruct t; try discriminate. intros [= <-]. split; [exact (sch_get_type_name _ _ _ E)|reflexivity].
+Qed.
+
+Lemma composite_cases s f : xv_composite_name s (mf_parent f) = true ->
+  (obj_key s f = Some (mf_parent f) /\ is_abstract s f = false /\ xv_object_name s (mf_parent f) = true) \/
+  (obj_key s f = None /\ is_abstract s f = true /\ xv_object_name s (mf_parent f) = false).
+Proof.
+  unfold xv_composite_name, obj_key, is_abstract, xv_object_name.
+  destruct (sch_get_type s (mf_parent f)) as [t|] eqn:E; [|discriminate].
+  pose proof (sch_get_type_name _ _ _ E) as Hn.
+  destruct t; cbn [xv_is_composite xv_is_object et_name] in *; try discriminate; intros _;
+    [left; subst; auto|right; auto|right; auto].
+Qed.
+
+Theorem xing_groups s fields f g :
+  (forall x, In x fields -> xv_composite_name s (mf_parent x) = true) ->
+  In f fields -> In g fields ->
+  ((exists grp, In grp (mx_group_by_common_parents s fields) /\ In f grp /\ In g grp) <->
+   (mf_parent f = mf_parent g \/ xv_object_name s (mf_parent f) = false \/ xv_object_name s (mf_parent g) = false)).
+Proof.
+  intros Hcomp Hf Hg. rewrite group_by_common_parents_eq.
+  set (conc := fold_left (grp_step (obj_key s)) fields []).
+  set (abs := filter (is_abstract s) fields).
+  assert (Hnd : NoDup (map fst conc)) by (apply grp_fold_nodup; constructor).
+  assert (Hlk : forall k, grp_lookup k conc = filter (key_is (obj_key s) k) fields).
+  { intros k. unfold conc. rewrite grp_fold_lookup. reflexivity. }
+  assert (Hkeys : forall k, In k (map fst conc) <-> exists x, In x fields /\ obj_key s x = Some k).
+  { intros k. unfold conc. rewrite grp_fold_keys. split; [intros [[]|H]; exact H|auto]. }
+  assert (Habs : forall x, In x fields -> is_abstract s x = true -> In x abs).
+  { intros x Hx Ha. apply filter_In. auto. }
+  assert (Hin_grp : forall x k, In x fields -> obj_key s x = Some k -> exists l, In (k, l) conc /\ In x l).
+  { intros x k Hx Hk. assert (Hkk : In k (map fst conc)) by (apply Hkeys; exists x; auto).
+    apply in_map_iff in Hkk. destruct Hkk as [[k0 l] [E Hl]]. cbn in E. subst k0. exists l. split; [exact Hl|].
+    rewrite <- (grp_in_lookup conc k l Hnd Hl), Hlk. apply filter_In. split; [exact Hx|].
+    unfold key_is. rewrite Hk. apply streq_refl. }
+  destruct (composite_cases s f (Hcomp f Hf)) as [(Kf & Af & Of)|(Kf & Af & Of)];
+    destruct (composite_cases s g (Hcomp g Hg)) as [(Kg & Ag & Og)|(Kg & Ag & Og)].
+  - (* both parents are object types *)
+    split.
+    + intros [grp [Hgrp [Hfg Hgg]]].
+      destruct conc as [|c0 conc'] eqn:Ec.
+      * destruct Hgrp as [<-|[]]. apply filter_In in Hfg. destruct Hfg as [_ Hfa]. congruence.
+      * rewrite <- Ec in *. apply in_map_iff in Hgrp. destruct Hgrp as [[k l] [<- Hkl]]. cbn [snd] in *.
+        left.
+        assert (Hl : l = filter (key_is (obj_key s) k) fields) by (rewrite <- Hlk; symmetry; apply grp_in_lookup; assumption).
+        apply in_app_or in Hfg. apply in_app_or in Hgg.
+        destruct Hfg as [Hfg|Hfg]; [|apply filter_In in Hfg; destruct Hfg; congruence].
+        destruct Hgg as [Hgg|Hgg]; [|apply filter_In in Hgg; destruct Hgg; congruence].
+        rewrite Hl in Hfg, Hgg. apply filter_In in Hfg. apply filter_In in Hgg.
+        destruct Hfg as [_ Hfk]. destruct Hgg as [_ Hgk]. unfold key_is in *. rewrite Kf in Hfk. rewrite Kg in Hgk.
+        apply streq_eq in Hfk. apply streq_eq in Hgk. congruence.
+    + intros [Heq|[H|H]]; try congruence.
+      destruct (Hin_grp f _ Hf Kf) as [l [Hl Hfl]].
+      assert (Hgl : In g l).
+      { rewrite <- (grp_in_lookup conc _ l Hnd Hl), Hlk. apply filter_In. split; [exact Hg|].
+        unfold key_is. rewrite Kg, Heq. apply streq_refl. }
+      destruct conc as [|c0 conc'] eqn:Ec; [destruct Hl|]. rewrite <- Ec in *.
+      exists (l ++ abs). split; [|split; apply in_or_app; left; assumption].
+      apply in_map_iff. exists (mf_parent f, l). auto.
+  - (* f object, g abstract *)
+    split; [intros _; right; right; exact Og|intros _].
+    destruct (Hin_grp f _ Hf Kf) as [l [Hl Hfl]].
+    destruct conc as [|c0 conc'] eqn:Ec; [destruct Hl|]. rewrite <- Ec in *.
+    exists (l ++ abs). split; [|split; apply in_or_app; [left; exact Hfl|right; apply Habs; assumption]].
+    apply in_map_iff. exists (mf_parent f, l). auto.
+  - (* f abstract, g object *)
+    split; [intros _; right; left; exact Of|intros _].
+    destruct (Hin_grp g _ Hg Kg) as [l [Hl Hgl]].
+    destruct conc as [|c0 conc'] eqn:Ec; [destruct Hl|]. rewrite <- Ec in *.
+    exists (l ++ abs). split; [|split; apply in_or_app; [right; apply Habs; assumption|left; exact Hgl]].
+    apply in_map_iff. exists (mf_parent g, l). auto.
+  - (* both abstract *)
+    split; [intros _; right; left; exact Of|intros _].
+    destruct conc as [|[k l] conc'] eqn:Ec.
+    + exists abs. split; [left; reflexivity|split; apply Habs; assumption].
+    + exists (l ++ abs). split; [left; reflexivity|split; apply in_or_app; right; apply Habs; assumption].
+Qed.
